@@ -307,6 +307,25 @@ fn cycle_steps(template: u64, p: &CycleParams) -> Vec<Step> {
             v.push(Step::HClose { slot: s });
             v.push(Step::Api(Op::RemoveStream("/keep2".into())));
         }
+        10 | 11 => {
+            // a stream created behind another one grows into the space the other releases
+            // (a chain that is not monotone), is cut back to a prefix with set_len, and removed
+            let n = 1 + (p.size % 63) as usize;
+            v.push(Step::HOpen { slot: s, path: "/h".into(), how: OpenHow::CreateNew });
+            v.push(Step::HWriteTag { slot: s, len: n * 64, tag: 31 });
+            v.push(Step::HClose { slot: s });
+            v.push(Step::HOpen { slot: s, path: "/x".into(), how: OpenHow::CreateNew });
+            v.push(Step::HWriteTag { slot: s, len: 128, tag: 32 });
+            v.push(Step::HClose { slot: s });
+            v.push(Step::Api(Op::RemoveStream("/h".into())));
+            v.push(Step::HOpen { slot: s, path: "/x".into(), how: OpenHow::Open });
+            v.push(Step::HSeek { slot: s, from: SeekFrom::End(0) });
+            v.push(Step::HWriteTag { slot: s, len: n * 64, tag: 33 });
+            v.push(Step::HFlush { slot: s });
+            v.push(Step::HSetLen { slot: s, n: if template == 10 { 64 } else { 64 * (1 + p.delta % 3) } });
+            v.push(Step::HClose { slot: s });
+            v.push(Step::Api(Op::RemoveStream("/x".into())));
+        }
         _ => {
             // empty storage created and removed; metadata set and reset
             v.push(Step::Api(Op::CreateStorage("/tmpst".into())));
@@ -376,7 +395,7 @@ fn c15_case(ctx: &Ctx, rep: &mut Report, rng: &mut Rng, version: Version, done: 
     run_step(&mut sess, Step::HOpen { slot: 6, path: "/keep".into(), how: OpenHow::Create }, done, rep)?;
     run_step(&mut sess, Step::HWriteTag { slot: 6, len: keep_len as usize, tag: 3 }, done, rep)?;
     run_step(&mut sess, Step::HClose { slot: 6 }, done, rep)?;
-    let mut template = rng.below(10);
+    let mut template = rng.below(12);
     if mega {
         template = *rng.pick(&[0u64, 2, 2, 3, 5, 0]);
     }
@@ -522,6 +541,8 @@ pub fn run_c15(ctx: &Ctx, rep: &mut Report) {
 pub struct MetaMonitor {
     checked: u64,
     expect_ok: bool,
+    /// drives the occasional failed first attempt of a setter
+    rng: Rng,
 }
 
 impl Monitor for MetaMonitor {
@@ -529,11 +550,24 @@ impl Monitor for MetaMonitor {
         // outcome kinds of the setters (NotFound / InvalidInput) are part of C17
         true
     }
-    fn before(&mut self, sess: &mut Session, step: &Step, _rep: &mut Report) {
+    fn before(&mut self, sess: &mut Session, step: &Step, rep: &mut Report) {
         self.expect_ok = match step {
             Step::Api(op) => !probe_expect(sess, op).is_refusal(),
             _ => false,
         };
+        // "Survives reopening" also after a hiccup of the store: one setter in twelve is
+        // first attempted with one underlying write or seek failing (its outcome is not
+        // judged, and the model does not see it); the step itself then is the retry, and
+        // what it reports as set must be what every later check - reopen included - finds.
+        if let Step::Api(op @ (Op::SetState(..) | Op::SetCreated(..) | Op::SetModified(..) | Op::SetClsid(..))) = step {
+            if self.expect_ok && self.rng.chance(1, 12) {
+                let k = self.rng.below(30);
+                sess.shared.arm(vec![crate::backend::Fault { kinds: crate::backend::K_WRITE | crate::backend::K_SEEK, k, err: std::io::ErrorKind::Other, sticky: false, partial: false }]);
+                let r = engine::exec_api_on(sess.cf(), op);
+                sess.shared.disarm();
+                rep.count(if r.is_err() { "setter_first_attempt_failed" } else { "setter_first_attempt_not_reached_by_the_fault" });
+            }
+        }
     }
     fn after(&mut self, sess: &mut Session, step: &Step, rep: &mut Report) -> Result<(), Fail> {
         // wall-clock window of a new storage / touch: floor100ns(before) <= t <= after
@@ -641,7 +675,7 @@ pub fn run_c17(ctx: &Ctx, rep: &mut Report) {
         cfg.reopen_pct = 3;
         cfg.soft_max_objects = *rng.pick(&[10, 40, 80]);
         cfg.max_size = 700;
-        let mut mon = MetaMonitor { checked: 0, expect_ok: false };
+        let mut mon = MetaMonitor { checked: 0, expect_ok: false, rng: Rng::derive(ctx.seed, &[17, 0xFA17, ctx.shard, case]) };
         // a fifth of the histories start from another writer's file whose free directory
         // slots still carry the metadata of deleted objects: new objects that reuse such a
         // slot must report their own defaults
